@@ -31,6 +31,20 @@ def graph_history(draw, tier):
         edges |= {tuple(sorted(p)) for p in combinations(vs, 2)}
     pairs = [(i, j) for i in range(n) for j in range(i + 1, n)]
     edges |= set(draw(st.lists(st.sampled_from(pairs), max_size=8, unique=True)))
+    if draw(st.integers(0, 3)) == 3:
+        # two large cliques sharing one or two vertices, with triangles hanging on edges of the union: nested
+        # cliques whose larger host is blocked by a tie-break (greedy-maximality of the sub-cliques is at stake)
+        a = draw(st.integers(4, 6))
+        b = draw(st.integers(4, 6))
+        sh = draw(st.integers(1, 2))
+        A = list(range(a))
+        B = list(range(a - sh, a - sh + b))
+        n = a - sh + b
+        edges = {tuple(sorted(p)) for p in combinations(A, 2)} | {tuple(sorted(p)) for p in combinations(B, 2)}
+        for _ in range(draw(st.integers(1, 3))):
+            u, v = draw(st.sampled_from(sorted(edges)))
+            edges |= {(u, n), (v, n)}
+            n += 1
     edges = sorted(edges)
     order = draw(st.permutations(edges)) if edges else []
     flip = [draw(st.booleans()) for _ in order]
